@@ -224,6 +224,17 @@ def builtinMeth (recv : Ty) (m : String) : Option (List Ty × Ty) :=
   | .named "Vec" [_], "clear" => some ([], .unit)
   | .named "Array" [t], "get" | .named "Vec" [t], "get" => some ([.i64], t)
   | .named "Array" [t], "set" | .named "Vec" [t], "set" => some ([.i64, t], .unit)
+  | .named "Array" [t], "clone" => some ([], .named "Array" [t])
+  | .named "Vec" [t], "clone" => some ([], .named "Vec" [t])
+  | .named "Vec" [t], "to_array" => some ([], .named "Array" [t])
+  | .i32, "overflowing_add" | .i32, "overflowing_sub" | .i32, "overflowing_mul" => some ([.i32], .tuple [.i32, .bool])
+  | .i64, "overflowing_add" | .i64, "overflowing_sub" | .i64, "overflowing_mul" => some ([.i64], .tuple [.i64, .bool])
+  | .i32, "overflowing_neg" => some ([], .tuple [.i32, .bool])
+  | .i64, "overflowing_neg" => some ([], .tuple [.i64, .bool])
+  | .i32, "to_char_unchecked" | .i64, "to_char_unchecked" => some ([], .char)
+  | .char, "len_utf8" => some ([], .i32)
+  | .i32, "to_string_hex" | .i64, "to_string_hex" | .u8, "to_string_hex" => some ([], .str)
+  | .i32, "to_string_binary" | .i64, "to_string_binary" | .u8, "to_string_binary" => some ([], .str)
   | _, _ => none
 
 /-- methods a trait offers: required signatures and default methods -/
@@ -548,6 +559,7 @@ def synth (p : TProg) (Γ : Ctx) : TExpr → TC Ty
       if !isZeroable t then throw (.unsatisfiedBound ("Array::zero for " ++ tyStr t)) else do
       checkArgs "Array::zero" [.i64] ts; pure ty
     | .named "Array" [t], "fill" => do checkArgs "Array::fill" [.i64, t] ts; pure ty
+    | .named "Array" [t], "fill_with" => do checkArgs "Array::fill_with" [.i64, .fn [.i64] t] ts; pure ty
     | .i32, "max_value" | .i32, "min_value" => do checkArgs "Int32::max_value" [] ts; pure .i32
     | .i64, "max_value" | .i64, "min_value" => do checkArgs "Int64::max_value" [] ts; pure .i64
     | .named n [], f =>
@@ -666,6 +678,13 @@ def synth (p : TProg) (Γ : Ctx) : TExpr → TC Ty
     if !(compat .i64 tl && compat .i64 th) then throw (.typeMismatch "range bounds") else
     let _ ← synth p { (Γ.bind [⟨x, .i64, false⟩]) with inLoop := true } b
     pure .unit
+  | .forEach x c b => do
+    let tc ← synth p Γ c
+    match elemTy tc with
+    | some t => do
+      let _ ← synth p { (Γ.bind [⟨x, t, false⟩]) with inLoop := true } b
+      pure .unit
+    | none => throw (.typeMismatch ("for over a value of type " ++ tyStr tc))
   | .brk => if Γ.inLoop then pure tNever else throw (.malformed "break outside a loop")
   | .cont => if Γ.inLoop then pure tNever else throw (.malformed "continue outside a loop")
   | .ret e => do
@@ -741,6 +760,7 @@ def placeOk (p : TProg) (Γ : Ctx) : TExpr → TC Unit
   | .field a _ => do
     let ta ← synth p Γ a
     if isClassTy p ta then pure () else placeOk p Γ a
+  | .tget a _ => placeOk p Γ a
   | .index _ _ => pure ()
   | _ => throw (.malformed "assignment to something that is not a place")
 end
